@@ -152,9 +152,66 @@ DE_ROOT_SIG = r"fn deserialize\((d): &mut Deserializer<'xml>\) -> DeResult<Self>
 TS_FORMATS = {"DateTime": "dateTime", "HttpDate": "httpDate", "EpochSeconds": "epochSeconds"}
 
 
+XMLNS_XSI = "http://www.w3.org/2001/XMLSchema-instance"
+ATTRS_FN = re.compile(r"(.*) fn attributes\(&self\) -> Vec<\(&str, &str\)> \{ vec!\[ ?(.*?),? ?\] \}")
+
+
+def parse_attributes_fn(ty, items_text):
+    """the body `vec![…]` of a generated `fn attributes(&self)`: a list of `("name", self.field.as_str())` items, each
+    one with a prefixed name directly preceded by the declaration of its prefix `("xmlns:xsi", XMLNS_XSI)` — the only
+    prefix the Lean model knows (`Xml.nsDeclFor`), and at most one prefixed attribute per struct.
+    -> [{'tag', 'field'}] in list order"""
+    item_re = re.compile(r'\("([^"]+)", (?:(XMLNS_XSI)|self\.(\w+)\.as_str\(\))\)(?:, |$)')
+    items = []
+    p = 0
+    text = items_text.strip()
+    while p < len(text):
+        m = item_re.match(text, p)
+        if not m:
+            fail(f"xml: SerializeContent for {ty}: fn attributes: unrecognised item at `{text[p:p+80]}`")
+        items.append((m.group(1), m.group(2), m.group(3)))
+        p = m.end()
+    if not items:
+        fail(f"xml: SerializeContent for {ty}: fn attributes lists nothing")
+    attrs = []
+    prefixed = 0
+    i = 0
+    while i < len(items):
+        name, const, field = items[i]
+        if const is not None:
+            if name != "xmlns:xsi":
+                fail(f"xml: SerializeContent for {ty}: fn attributes: constant attribute {name} is not the declaration xmlns:xsi")
+            if i + 1 >= len(items) or items[i + 1][1] is not None or not items[i + 1][0].startswith("xsi:"):
+                fail(f"xml: SerializeContent for {ty}: fn attributes: the declaration xmlns:xsi is not directly followed by an xsi: attribute")
+            i += 1
+            name, const, field = items[i]
+            prefixed += 1
+        elif ":" in name:
+            fail(f"xml: SerializeContent for {ty}: fn attributes: attribute {name} has a prefix but its declaration does not stand directly in front of it")
+        if name.startswith("xmlns") or not re.fullmatch(r"[A-Za-z_][A-Za-z0-9_.:-]*", name):
+            fail(f"xml: SerializeContent for {ty}: fn attributes: attribute name {name!r}")
+        attrs.append({"tag": name, "field": field})
+        i += 1
+    if prefixed > 1:
+        fail(f"xml: SerializeContent for {ty}: fn attributes: more than one prefixed attribute (the Lean model writes one "
+             "declaration per prefixed attribute; extend Xml.attrPairs)")
+    if len(set(a["tag"] for a in attrs)) != len(attrs) or len(set(a["field"] for a in attrs)) != len(attrs):
+        fail(f"xml: SerializeContent for {ty}: fn attributes: an attribute or a field is listed twice")
+    return attrs
+
+
 def parse_ser_content(ty, text, dto):
     """-> ('strenum',) | ('union', [(tag, variant)]) | ('struct', [field dict])"""
+    attr_items = None
+    m = ATTRS_FN.fullmatch(norm(text))
+    if m:
+        # `fn serialize_content … { … }` followed by `fn attributes(&self) -> Vec<(&str, &str)> { vec![…] }` (since 1dc4ea8)
+        text, attr_items = m.group(1), parse_attributes_fn(ty, m.group(2))
+    elif "fn attributes" in text:
+        fail(f"xml: SerializeContent for {ty}: unrecognised `fn attributes`")
     body = fn_body(ty, "SerializeContent", text, SER_SIG)
+    if attr_items is not None and (body == "self.as_str().serialize_content(s)" or body.startswith("match self {")):
+        fail(f"xml: SerializeContent for {ty}: fn attributes on a type that is not a struct")
     if body == "self.as_str().serialize_content(s)":
         return ("strenum",)
     m = re.fullmatch(r"match self \{ (.*) \}", body)
@@ -215,6 +272,12 @@ def parse_ser_content(ty, text, dto):
                 if member is not None:
                     fail(f"xml: SerializeContent for {ty}: s.flattened_list with two names")
                 fields.append({"tag": tag, "field": m.group(1), "pres": pres, "shape": "flat"})
+    # members bound to attributes come last, in the order `fn attributes` lists them (the deserialiser table is
+    # ordered the same way): `self.field.as_str()` without `if let` = a plain (required) field
+    for a in attr_items or []:
+        if any(f["field"] == a["field"] or f["tag"] == a["tag"] for f in fields):
+            fail(f"xml: SerializeContent for {ty}: {a['field']} / {a['tag']} is written as an element and as an attribute")
+        fields.append({"tag": a["tag"], "field": a["field"], "pres": "req", "shape": "single", "attr": True})
     # kinds come from the struct definition in dto/generated.rs
     d = dto.get(ty)
     if not d or d[0] != "struct":
@@ -228,6 +291,8 @@ def parse_ser_content(ty, text, dto):
             fail(f"xml: SerializeContent for {ty}.{f['field']}: statement shape says {f['pres']} but dto field is "
                  f"{'Option' if fopt else 'plain'}")
         resolve_kind(ty, f, fty, dto)
+        if f.get("attr") and f["kind"] not in ("str", "enm"):
+            fail(f"xml: SerializeContent for {ty}.{f['field']}: attribute of kind {f['kind']} (only strings have `.as_str()`)")
     return ("struct", fields)
 
 
@@ -288,15 +353,31 @@ def parse_de_content(ty, text, dto):
     if body == "Ok(Self {})":
         return ("struct", [])
     # let mut x: Option<T> = None; …  d.for_each_element(|d, x| match x { arms _ => Err(..), })?; Ok(Self { … })
+    # since 1dc4ea8 a member bound to an attribute is `let x: Option<T> = d.attribute("tag")?.map(T::from);` — only
+    # here, in the `let` block in front of `for_each_element` (the model relies on it: `Deserializer::attribute`
+    # looks at the start tag that was entered last)
     p = 0
     lets = []
+    attr_lets = []
     let_re = re.compile(r"let mut (\w+): Option<(\w+)> = None; ")
+    attr_let_re = re.compile(r'let (\w+): Option<(\w+)> = d\.attribute\("([^"]+)"\)\?\.map\((\w+)::from\); ')
     while True:
         m = let_re.match(body, p)
-        if not m:
-            break
-        lets.append((m.group(1), m.group(2)))
-        p = m.end()
+        if m:
+            lets.append((m.group(1), m.group(2)))
+            p = m.end()
+            continue
+        m = attr_let_re.match(body, p)
+        if m:
+            if m.group(2) != m.group(4):
+                fail(f"xml: DeserializeContent for {ty}: attribute {m.group(3)}: Option<{m.group(2)}> built with {m.group(4)}::from")
+            lets.append((m.group(1), m.group(2)))
+            attr_lets.append((m.group(1), m.group(3)))
+            p = m.end()
+            continue
+        break
+    if "d.attribute(" in body[p:]:
+        fail(f"xml: DeserializeContent for {ty}: d.attribute outside the `let` block")
     m = re.compile(r"d\.for_each_element\(\|d, x\| match x \{ ").match(body, p)
     if not m:
         fail(f"xml: DeserializeContent for {ty}: expected d.for_each_element at `{body[p:p+100]}`")
@@ -335,6 +416,13 @@ def parse_de_content(ty, text, dto):
             if kind == "wrapped":
                 f["member"] = m.group(4)
             fields.append(f)
+    # members bound to attributes come last, in `let` order (= the order their `?` can fail in)
+    for var, tag in attr_lets:
+        if any(f["field"] == var or f["tag"] == tag for f in fields):
+            fail(f"xml: DeserializeContent for {ty}: {var} / {tag} is read from an element and from an attribute")
+        fields.append({"tag": tag, "field": var, "shape": "single", "attr": True})
+    if len(set(t for _, t in attr_lets)) != len(attr_lets):
+        fail(f"xml: DeserializeContent for {ty}: an attribute is read twice")
     m = re.fullmatch(r"Ok\(Self \{ (.*)\}\)", body[p:])
     if not m:
         fail(f"xml: DeserializeContent for {ty}: expected `Ok(Self {{ … }})` at `{body[p:p+100]}`")
@@ -397,6 +485,8 @@ def parse_de_content(ty, text, dto):
                  f"{'Option' if fopt else 'plain'}")
         resolve_kind(ty, f, fty, dto)
         f.pop("member_type", None)
+        if f.get("attr") and f["kind"] not in ("str", "enm"):
+            fail(f"xml: DeserializeContent for {ty}.{f['field']}: attribute of kind {f['kind']} (`d.attribute` yields a String)")
     return ("struct", fields)
 
 
@@ -490,6 +580,8 @@ def parse_manual(src):
 def parse_xml_generated(src, manual_src, dto):
     if 'const XMLNS_S3: &str = "http://s3.amazonaws.com/doc/2006-03-01/";' not in src:
         fail("xml/generated.rs: XMLNS_S3 constant changed")
+    if "XMLNS_XSI" in src and f'const XMLNS_XSI: &str = "{XMLNS_XSI}";' not in src:
+        fail("xml/generated.rs: XMLNS_XSI constant changed (the Lean model has it as Xml.xmlnsXsi)")
     ser, de, ser_root, de_root = {}, {}, {}, {}
     n = 0
     for trait, ty, text in split_impls(src):
@@ -651,6 +743,11 @@ def smithy_struct(shapes, name):
         f = {"tag": t.get("smithy.api#xmlName", mn), "member": None}
         f["attr"] = "smithy.api#xmlAttribute" in t
         f["nsdecl"] = "smithy.api#xmlNamespace" in t
+        if f["nsdecl"]:
+            ns = t["smithy.api#xmlNamespace"]
+            if not isinstance(ns, dict) or set(ns) != {"uri", "prefix"}:
+                fail(f"smithy: {name}${mn}: member-level xmlNamespace without a prefix (or with unknown keys): {ns!r}")
+            f["ns_prefix"], f["ns_uri"] = ns["prefix"], ns["uri"]
         if "smithy.api#default" in t and t["smithy.api#default"] is not None:
             dv = t["smithy.api#default"]
             if isinstance(dv, bool):
@@ -1022,6 +1119,11 @@ def run(repo, verif_root):
             alts = sm_root_tab[t].get("alts", [sm_root_tab[t]["tag"]])
             extra.append(f"  | .{t} => [" + ", ".join(tag_ident(a) for a in alts) + "]")
     extra.append("  | _ => []")
+    extra += ["", "/-- the member-level `xmlNamespace` traits of the model: (type, element name of the member, prefix, uri) -/",
+              "def smithyNsDecls : List (Ty × Bytes × Bytes × Bytes) := ["
+              + ", ".join(f"(.{t}, {tag_ident(f['tag'])}, {lean_bytes(f['ns_prefix'])}, {lean_bytes(f['ns_uri'])})"
+                          for t in tys if t in sm_defs and sm_defs[t][0] == "struct"
+                          for f in sm_defs[t][1] if f.get("nsdecl")) + "]"]
     write_if_changed(os.path.join(gen, "XmlSmithy.lean"), emit_table(
         "XmlSmithy", "The same schema shape derived from the Smithy model (data/s3.json + reduced data/sts.json"
         + (" + data/minio-patches.json" if "pub struct CachedTags" in dto_src else "") + ") only.",
@@ -1032,7 +1134,7 @@ def run(repo, verif_root):
         if d is None:
             return None
         if d[0] == "struct":
-            return {"kind": "struct", "fields": [{k: f[k] for k in ("tag", "pres", "shape", "kind", "member", "ref", "fmt") if k in f}
+            return {"kind": "struct", "fields": [{k: f[k] for k in ("tag", "pres", "shape", "kind", "member", "ref", "fmt", "attr") if k in f}
                                                  for f in d[1]]}
         return {"kind": "union", "variants": [{k: v[k] for k in ("tag", "kind", "ref") if k in v} for v in d[1]]}
 
